@@ -45,11 +45,17 @@ func (p *Profile) FilterSamplesByName(focus, ignore, hide, show *regexp.Regexp) 
 			}
 		}
 		if show != nil {
-			l.Line = l.matchedLines(show)
-			if len(l.Line) == 0 {
-				hidden[l.ID] = true
-			} else {
+			if m := l.Mapping; m != nil && show.MatchString(m.File) {
+				// The whole location is shown, even if it carries no line
+				// information (unsymbolized).
 				hnm = true
+			} else {
+				l.Line = l.matchedLines(show)
+				if len(l.Line) == 0 {
+					hidden[l.ID] = true
+				} else {
+					hnm = true
+				}
 			}
 		}
 	}
